@@ -16,6 +16,7 @@ RULE = (
     "the soft-input decoders (BP, min-sum, Wagner, SC, polar-BP, soft Reed-Muller) decoding a clean codeword; bit sequences exhaustive for length<=8 and seeded random. "
     "Distinct = (producer, consumer, bit sequence, magnitude); non-trivial = sequence contains both symbols."
     " Added after the seeded-fault rounds: ensemble voting modes with explicit weights, consumers constructed with the enum member and with the documented string 'llr', variants of one scheme/order in one child process."
+    " Round 5: modem form axis (deep copy, .double().float(), state_dict twin)."
 )
 ASSUMPTIONS = [
     "Hysteresis is judged only where sigmoid(-LLR) lies outside its [low, high] band; Adaptive/Dynamic only on sequences containing both symbols; Dynamic is a fresh object per case",
